@@ -40,7 +40,27 @@ def main(argv):
         while time.monotonic() < spec["start_at"]:
             time.sleep(0.0005)
         AuditHub.add(handler)
-        _s, _m, obj, res = env.stage_and_transfer(odb, spec["ws"], shallow=False)
+        lj = None
+        if spec.get("line_jitter"):
+            # statement-level descheduling inside the store / transfer / state code (see monitors.LineJitter)
+            import dvc_objects.db as _odbmod
+
+            import dvc_data.hashfile.db as _dbmod
+            import dvc_data.hashfile.db.local as _localmod
+            import dvc_data.hashfile.state as _statemod
+            import dvc_data.hashfile.transfer as _trmod
+
+            from .monitors import LineJitter
+
+            lj = LineJitter([_localmod.LocalHashFileDB, _dbmod.HashFileDB, _odbmod.ObjectDB, _statemod.State, _trmod], random.Random(spec["seed"] ^ 0x5EED),
+                            p=spec["line_jitter"][0], max_sleep=spec["line_jitter"][1], thread_prefix="")
+            lj.__enter__()
+        try:
+            _s, _m, obj, res = env.stage_and_transfer(odb, spec["ws"], shallow=False)
+        finally:
+            if lj is not None:
+                lj.__exit__()
+                out["line_jitter_yields"] = lj.yields
         AuditHub.remove(handler)
         out["oid"] = obj.hash_info.value
         out["failed"] = sorted(h.value for h in res.failed)
